@@ -40,7 +40,9 @@ CASE_ATOMS = ['../FOO/', '../LIBS/', '<ABS-CARTS>', '../CARTS2/',
               '..\\\\', '\\\\', 'foobar\\\\',
               # siblings of a directory whose name holds pattern characters ('p.r+j'): the names a pattern built from
               # that name would also match
-              '../pXr+j/', '../p.rrj/']
+              '../pXr+j/', '../p.rrj/',
+              # the permitted root itself, spelled as an absolute path (then '..' climbs out of it again)
+              '<ROOT>']
 INCLUDE_ONLY = ('carts2/', 'carts/', '<ABS-CARTS>', '../CARTS2/', '..\\', '\\', 'sub\\', 'foobar\\', '../pXr+j/', '../p.rrj/')
 REQUIRE_ONLY = ('\xff', '\\255', '..\\\\', '\\\\', 'foobar\\\\')     # a byte that is not UTF-8, raw and as a Lua escape; escaped backslashes
 
@@ -181,6 +183,7 @@ def require_call(p, form):
 def check_require(sb, p, lp, res, form='paren'):
     from pico8 import tool
     res.evaluations += 1
+    p = p.replace('<ROOT>', sb.proj + '/')
     main = os.path.join(sb.proj, 'main.lua')
     out = os.path.join(sb.proj, 'out.p8')
     if os.path.exists(out):
@@ -239,6 +242,7 @@ def check_require_nested(sb, p, lp, res, form='paren'):
     main = os.path.join(sb.proj, 'main.lua')
     out = os.path.join(sb.proj, 'out.p8')
     mod = os.path.join(sb.proj, 'sub', 'a.lua')
+    p = p.replace('<ROOT>', os.path.join(sb.proj, 'sub') + '/')
     if os.path.exists(out):
         os.unlink(out)
     open(main, 'wb').write(b'require("sub/a")\n')
@@ -302,6 +306,7 @@ def check_include(sb, p, loc, res):
     else:
         d = os.path.join(sb.carts2, 'game')
         root = d        # carts2 is not a PICO-8 carts folder: the cart's own directory is the root
+    p = p.replace('<ROOT>', root + '/')
     cart = os.path.join(d, 'cart.p8')
     open(cart, 'wb').write(b'pico-8 cartridge // http://www.pico-8.com\nversion 33\n__lua__\n#include ' + p.encode() +
                            b'.lua\n')
